@@ -404,7 +404,7 @@ fn step_inner(r: &mut Real, m: &mut Model, op: &Op, cx: &mut Ctx) -> bool {
                 let nb = compare(&exp, &d, LIFETIME | CTOR, false, &what, cx);
                 let block = if c == Ctor::FromBox { nb.get(1) } else { nb.first() };
                 let Some(&block) = block else {
-                    std::mem::forget(h);
+                    cap(|| release_real(h)); // nothing may leak into the next execution
                     return false;
                 };
                 m.slots[slot] = Some(MA { id, val: 0, owners: 1, block, data: block + doff });
